@@ -1,8 +1,205 @@
+import DeapModel.Core.Logbook
 import Driver.Proto
-/-! Protocol handler for C18 (stub until the model is built). -/
+/-!
+Protocol handler for C18 (Logbook and Statistics).
+
+`hist <op> …` runs a history on a fresh logbook and answers, for every operation,
+`<observation>;<state>` (joined by ` | `).  Names are numbers, name `0` is the record id.
+
+Operations
+* `R:<entry>`  record; entry = items joined by `,`: `k=v`, `k<` (open a dict under key k), `>` (close);
+  `-` is the empty entry
+* `L:<path>:<names>`  select on the chapter reached by `path` (`.`-separated, `-` = the logbook itself)
+* `S` stream, `P` str(), `O:<i>` pop(i), `D:<i>` del [i], `X:<i,j,…>` del [slice] (index list of the slice),
+  `K` pickle round trip, `H:<names|none>` set header, `G:<0|1>` set log_header
+
+Observation: `-`; `L:<col>` / `T:<col>;<col>…` / `nopath` (None printed as `N`); `t<h>:<record ids>` for the
+emitted text (h = header flag); `ok:<row>` / `raise` for pop; `ok` / `raise` for deletions.
+State: `[buffindex:rows:chapters]` recursively (rows `/`-separated, dicts sorted by key, chapters sorted
+by name as `<name>[…]`), then `;<header>;<log_header>`.
+
+`stats k:<key> r:<name>:<fn>:<args> … d:<data>` and
+`multi s:<sname>:<key> … r:<target|*>:<name>:<fn>:<args> … d:<data>` compile statistics
+(tokens are applied in order; data = `;`-separated individuals, each a `,`-separated int list).
+-/
 namespace DriverC18
+open Proto Logbook
+
+/-! ### parsing -/
+
+def parseItems : Nat → Bool → List String → Row → List (Name × Entry) → Option (Entry × List String)
+  | 0, _, _, _, _ => none
+  | _ + 1, inside, [], sc, ds => if inside then none else some (.mk sc ds, [])
+  | f + 1, inside, t :: ts, sc, ds =>
+    if t = ">" then (if inside then some (.mk sc ds, ts) else none)
+    else if t.endsWith "<" then do
+      let k ← parseNat (t.dropEnd 1).toString
+      let (sub, rest) ← parseItems f true ts [] []
+      parseItems f inside rest sc (ds ++ [(k, sub)])
+    else match t.splitOn "=" with
+      | [k, v] => do
+        let k ← parseNat k
+        let v ← parseInt v
+        parseItems f inside ts (sc ++ [(k, v)]) ds
+      | _ => none
+
+def parseEntry (s : String) : Option Entry :=
+  if s = "-" then some (.mk [] []) else
+  let toks := s.splitOn ","
+  match parseItems (toks.length + 1) false toks [] [] with
+  | some (e, []) => some e
+  | _ => none
+
+def parsePath (s : String) : Option (List Name) :=
+  if s = "-" then some [] else (s.splitOn ".").mapM parseNat
+
+def parseOp (s : String) : Option Op :=
+  match s.splitOn ":" with
+  | ["R", e] => (parseEntry e).map Op.record
+  | ["L", p, ns] => do pure (Op.select (← parsePath p) (← parseList parseNat ns))
+  | ["S"] => some .stream
+  | ["P"] => some .str
+  | ["O", i] => (parseInt i).map Op.pop
+  | ["D", i] => (parseInt i).map Op.delIndex
+  | ["X", idx] => (parseList parseNat idx).map Op.delSlice
+  | ["K"] => some .pickle
+  | ["H", h] => if h = "none" then some (.setHeader none) else (parseList parseNat h).map (fun l => Op.setHeader (some l))
+  | ["G", b] => (parseBool b).map Op.setLogHeader
+  | _ => none
+
+/-! ### printing -/
+
+def sortRow (r : Row) : Row := r.mergeSort (fun a b => a.1 ≤ b.1)
+
+def showRow (r : Row) : String :=
+  if r.isEmpty then "e" else ",".intercalate ((sortRow r).map fun p => toString p.1 ++ "=" ++ toString p.2)
+
+def showRows (rs : List Row) : String := if rs.isEmpty then "-" else "/".intercalate (rs.map showRow)
+
+partial def showLB (lb : LB) : String :=
+  let chs := lb.chapters.mergeSort (fun a b => a.1 ≤ b.1)
+  "[" ++ toString lb.buffindex ++ ":" ++ showRows lb.rows ++ ":" ++
+    (if chs.isEmpty then "-" else String.join (chs.map fun p => toString p.1 ++ showLB p.2)) ++ "]"
+
+def showState (lb : LB) : String :=
+  showLB lb ++ ";" ++ (match lb.header with | none => "none" | some h => showList toString h) ++ ";" ++
+    showBool lb.logHeader
+
+def showCol (c : List (Option Int)) : String := showList (showOpt toString) c |>.replace "none" "N"
+
+def showObs : Obs → String
+  | .none => "-"
+  | .sel none => "nopath"
+  | .sel (some (.single c)) => "L:" ++ showCol c
+  | .sel (some (.multi cs)) => "T:" ++ (if cs.isEmpty then "-" else ";".intercalate (cs.map showCol))
+  | .text t => "t" ++ showBool t.header ++ ":" ++
+      showList (fun (r : Row) => match dictGet r 0 with | some v => toString v | none => "?") t.rows
+  | .popped none => "raise"
+  | .popped (some r) => "ok:" ++ showRow r
+  | .raised true => "raise"
+  | .raised false => "ok"
+
+def runHist (ops : List Op) : String :=
+  let r := ops.foldl (fun (acc : LB × List String) o =>
+    let s := step acc.1 o
+    (s.1, (showObs s.2 ++ ";" ++ showState s.1) :: acc.2)) (LB.empty, [])
+  " | ".intercalate r.2.reverse
+
+/-! ### statistics -/
+
+def keyFn (code : String) : Option (List Int → Int) :=
+  match code with
+  | "id" => some fun l => l.headD 0          -- plain numbers travel as singleton lists
+  | "item0" => some fun l => l.headD 0
+  | "last" => some fun l => l.getLastD 0
+  | "len" => some fun l => (l.length : Int)
+  | "sum" => some fun l => l.foldl (· + ·) 0
+  | _ => none
+
+def isum (l : List Int) : Int := l.foldl (· + ·) 0
+
+/-- the statistical functions of the harness, `fn args values` = `function(*args, values, **kargs)` -/
+def statFn (code : String) : Option (List Int → List Int → Int) :=
+  match code with
+  | "sum" => some fun _ v => isum v
+  | "len" => some fun _ v => (v.length : Int)
+  | "max" => some fun _ v => v.foldl max (v.headD 0)
+  | "min" => some fun _ v => v.foldl min (v.headD 0)
+  | "lin" => some fun a v => a.headD 0 * isum v + (a.drop 1).headD 0      -- lin(a, values, b=0)
+  | "cnt" => some fun a v => ((v.filter (fun x => decide (a.headD 0 ≤ x))).length : Int)
+  | "nth" => some fun a v => if v.isEmpty then 0 else v.getD ((a.headD 0).toNat % v.length) 0
+  | "wsum" => some fun _ v => isum (v.zipIdx.map fun p => ((p.2 : Int) + 1) * p.1)
+  | _ => none
+
+abbrev St := Stats.Statistics (List Int) Int (List Int) Int
+
+def parseArgs (s : String) : Option (List Int) :=
+  if s = "-" then some [] else (s.splitOn "_").mapM parseInt
+
+def showRec (r : List (Name × Int)) : String :=
+  if r.isEmpty then "e" else ",".intercalate (r.map fun p => toString p.1 ++ "=" ++ toString p.2)
+
+def parseData (s : String) : Option (List (List Int)) := parseList2 parseInt (s.drop 2).toString
+
+def handleStats (toks : List String) : Option String := do
+  let mut st : Option St := none
+  let mut out : Option String := none
+  for t in toks do
+    match t.splitOn ":" with
+    | ["k", code] =>
+      if st.isSome || out.isSome then failure
+      st := some (Stats.new (← keyFn code))
+    | ["r", name, fn, args] =>
+      if out.isSome then failure
+      let s ← st
+      st := some (Stats.register s (← parseNat name) (← statFn fn) (← parseArgs args))
+    | ["d", _] =>
+      if out.isSome then failure
+      let s ← st
+      out := some (showRec (Stats.compile s (← parseData t)))
+    | _ => failure
+  out
+
+def regIn (target : Name) (name : Name) (fn : List Int → List Int → Int) (args : List Int) :
+    Stats.Multi (List Int) Int (List Int) Int → Option (Stats.Multi (List Int) Int (List Int) Int)
+  | [] => none
+  | (k, s) :: rest =>
+    if k = target then some ((k, Stats.register s name fn args) :: rest)
+    else (regIn target name fn args rest).map ((k, s) :: ·)
+
+def handleMulti (toks : List String) : Option String := do
+  let mut m : Stats.Multi (List Int) Int (List Int) Int := []
+  let mut out : Option String := none
+  for t in toks do
+    match t.splitOn ":" with
+    | ["s", sname, code] =>
+      if out.isSome then failure
+      let n ← parseNat sname
+      if m.any (·.1 == n) then failure
+      m := m ++ [(n, Stats.new (← keyFn code))]
+    | ["r", target, name, fn, args] =>
+      if out.isSome then failure
+      let nm ← parseNat name
+      let f ← statFn fn
+      let a ← parseArgs args
+      if target = "*" then m := Stats.Multi.register m nm f a
+      else m ← regIn (← parseNat target) nm f a m
+    | ["d", _] =>
+      if out.isSome then failure
+      let r := Stats.Multi.compile m (← parseData t)
+      out := some (if r.isEmpty then "e" else
+        " ".intercalate (r.map fun p => toString p.1 ++ "{" ++ showRec p.2 ++ "}"))
+    | _ => failure
+  out
 
 def handle : List String → String
+  | ["hist"] => "empty"
+  | "hist" :: ops =>
+    match ops.mapM parseOp with
+    | some os => runHist os
+    | none => "bad-op"
+  | "stats" :: toks => (handleStats toks).getD "bad-op"
+  | "multi" :: toks => (handleMulti toks).getD "bad-op"
   | _ => "bad-op"
 
 end DriverC18
